@@ -20,6 +20,9 @@ set_option linter.unusedVariables false
 @[reducible] def ext (b : List UInt8) (l : Nat) (pre : List (String × String)) (sc : Scanner) : Scanner :=
   { sc with src := sc.src ++ b, line := l + sc.line, dsc := pre ++ sc.dsc }
 
+/-- the sticky error is unset or one of the values the reader model produces -/
+def ErrStd (sc : Scanner) : Prop := sc.err = none ∨ sc.err = some .eof ∨ ∃ t, sc.err = some (.io t)
+
 /-- the run may look beyond the end of its source only when nothing was appended -/
 def Quiet (b : List UInt8) (sc : Scanner) : Prop := sc.err = none ∨ b = []
 
@@ -59,6 +62,8 @@ variable (b : List UInt8) (l : Nat) (pre : List (String × String))
 structure FrRes {α : Type} (sc : Scanner) (p q : Except Err α × Scanner) : Prop where
   meas : meas p.2 ≤ meas sc
   frame : Quiet b p.2 → Quiet b sc ∧ q = (p.1, ext b l pre p.2)
+  std : ErrStd sc → ErrStd p.2
+  keep : p.2.eexec = sc.eexec ∧ p.2.regurgitate = sc.regurgitate
 
 def FrAt {α : Type} (f g : SM α) (sc : Scanner) : Prop := FrRes b l pre sc (f sc) (g (ext b l pre sc))
 
@@ -73,18 +78,18 @@ theorem FrAt.bind' {α β : Type} {f g : SM α} {k k' : α → SM β} {sc : Scan
   rw [bind_eq, bind_eq]
   generalize hp : f sc = p at h hk
   obtain ⟨r, sc1⟩ := p
-  obtain ⟨h1, h2⟩ := h
+  obtain ⟨h1, h2, h3, h4⟩ := h
   cases r with
   | error e =>
-    dsimp only at h1 h2 ⊢
-    refine ⟨h1, fun he => ?_⟩
+    dsimp only at h1 h2 h3 h4 ⊢
+    refine ⟨h1, fun he => ?_, h3, h4⟩
     obtain ⟨a1, a2⟩ := h2 he
     rw [a2]
     exact ⟨a1, rfl⟩
   | ok a =>
-    obtain ⟨g1, g2⟩ := hk a sc1 rfl
-    dsimp only at h1 h2 ⊢
-    refine ⟨Nat.le_trans g1 h1, fun he => ?_⟩
+    obtain ⟨g1, g2, g3, g4⟩ := hk a sc1 rfl
+    dsimp only at h1 h2 h3 h4 ⊢
+    refine ⟨Nat.le_trans g1 h1, fun he => ?_, fun hs => g3 (h3 hs), ⟨g4.1.trans h4.1, g4.2.trans h4.2⟩⟩
     obtain ⟨c1, c2⟩ := g2 he
     obtain ⟨a1, a2⟩ := h2 c1
     rw [a2]
@@ -95,25 +100,29 @@ theorem FrAt.bind {α β : Type} {f g : SM α} {k k' : α → SM β} {sc : Scann
   FrAt.bind' h (fun a sc1 _ => hk a sc1)
 
 theorem FrAt.pure {α : Type} (a : α) (sc : Scanner) : FrAt b l pre (pure a : SM α) (pure a) sc :=
-  ⟨Nat.le_refl _, fun he => ⟨he, rfl⟩⟩
+  ⟨Nat.le_refl _, fun he => ⟨he, rfl⟩, id, ⟨rfl, rfl⟩⟩
 
 theorem FrAt.fail {α : Type} (e : Err) (sc : Scanner) : FrAt b l pre (Scan.fail e : SM α) (Scan.fail e) sc :=
-  ⟨Nat.le_refl _, fun he => ⟨he, rfl⟩⟩
+  ⟨Nat.le_refl _, fun he => ⟨he, rfl⟩, id, ⟨rfl, rfl⟩⟩
 
 theorem FrAt.modS (f : Scanner → Scanner) (sc : Scanner)
-    (hf : (f sc).err = sc.err ∧ meas (f sc) ≤ meas sc ∧ f (ext b l pre sc) = ext b l pre (f sc)) :
+    (hf : (f sc).err = sc.err ∧ meas (f sc) ≤ meas sc ∧ f (ext b l pre sc) = ext b l pre (f sc) ∧
+      (f sc).eexec = sc.eexec ∧ (f sc).regurgitate = sc.regurgitate) :
     FrAt b l pre (Scan.modS f) (Scan.modS f) sc :=
   ⟨hf.2.1, fun he => ⟨by unfold Quiet at he ⊢; rw [← hf.1]; exact he, by
     show ((Except.ok (), f (ext b l pre sc)) : Except Err Unit × Scanner) = _
-    rw [hf.2.2]; rfl⟩⟩
+    rw [hf.2.2.1]; rfl⟩, fun hs => by
+    show ErrStd (f sc)
+    unfold ErrStd at hs ⊢
+    rw [hf.1]; exact hs, ⟨hf.2.2.2.1, hf.2.2.2.2⟩⟩
 
 theorem FrAt.attempt {α : Type} {f g : SM α} {sc : Scanner} (h : FrAt b l pre f g sc) :
     FrAt b l pre (Scan.attempt f) (Scan.attempt g) sc := by
   unfold FrAt Scan.attempt at *
   generalize f sc = p at h
   obtain ⟨r, sc1⟩ := p
-  obtain ⟨h1, h2⟩ := h
-  refine ⟨h1, fun he => ?_⟩
+  obtain ⟨h1, h2, h3, h4⟩ := h
+  refine ⟨h1, fun he => ?_, h3, h4⟩
   obtain ⟨a1, a2⟩ := h2 he
   rw [a2]
   exact ⟨a1, rfl⟩
@@ -140,9 +149,9 @@ theorem fr_readByteRaw : Fr b l pre readByteRaw readByteRaw := by
   by_cases hb : b = []
   · subst hb
     cases hp : sc.peek <;> cases he : sc.err <;> cases hs : sc.src <;> cases hr : sc.regurgitate <;>
-      constructor <;> simp [readByteRaw, hp, he, hs, hr, meas, ext, Quiet]
+      constructor <;> simp [readByteRaw, hp, he, hs, hr, meas, ext, Quiet, ErrStd] <;> (cases sc.fault <;> simp)
   · cases hp : sc.peek <;> cases he : sc.err <;> cases hs : sc.src <;> cases hr : sc.regurgitate <;>
-      constructor <;> simp [readByteRaw, hp, he, hs, hr, meas, ext, Quiet, hb]
+      constructor <;> simp [readByteRaw, hp, he, hs, hr, meas, ext, Quiet, hb, ErrStd] <;> (cases sc.fault <;> simp)
 
 /-- a successful read consumes at least one unread byte -/
 def Strict {α : Type} (f : SM α) (sc : Scanner) : Prop := ∀ c, (f sc).1 = .ok c → meas (f sc).2 < meas sc
@@ -228,7 +237,7 @@ macro "fuel_side" : tactic =>
 
 /-- a field update that commutes with `ext` and keeps `err`, `src`, `peek` -/
 macro "mod_side" : tactic =>
-  `(tactic| (dsimp only [ext, meas]; (repeat' split) <;> exact ⟨rfl, Nat.le_refl _, rfl⟩))
+  `(tactic| (dsimp only [ext, meas]; (repeat' split) <;> exact ⟨rfl, Nat.le_refl _, rfl, rfl, rfl⟩))
 
 syntax "fr_lemma" : tactic
 macro_rules | `(tactic| fr_lemma) => `(tactic| fail "no lemma applies")
@@ -322,7 +331,8 @@ def lineCol (c : UInt8) (s : Scanner) : Scanner :=
 
 theorem lineCol_props (c : UInt8) (s : Scanner) :
     (lineCol c s).err = s.err ∧ (lineCol c s).src = s.src ∧ (lineCol c s).peek = s.peek ∧
-    lineCol c (ext b l pre s) = ext b l pre (lineCol c s) := by
+    lineCol c (ext b l pre s) = ext b l pre (lineCol c s) ∧
+    (lineCol c s).eexec = s.eexec ∧ (lineCol c s).regurgitate = s.regurgitate := by
   unfold lineCol ext
   by_cases h1 : (s.crSeen && c == 10) = true <;> by_cases h2 : (c == 10 || c == 13) = true <;>
     simp [h1, h2, Nat.add_assoc]
@@ -369,7 +379,7 @@ theorem fr_nextByte (sc : Scanner) : FrAt b l pre (nextByte sc) (nextByte sc) sc
         rw [if_pos (by simp [hp, hr]), hp]
         rfl
       rw [nextByte_cons hp hr, e2]
-      exact ⟨by simp [meas, hp], fun he => ⟨he, rfl⟩⟩
+      exact ⟨by simp [meas, hp], fun he => ⟨he, rfl⟩, id, ⟨rfl, rfl⟩⟩
 
 theorem nextByte_strict (sc : Scanner) : Strict (nextByte sc) sc := by
   cases hp : sc.peek with
@@ -391,7 +401,9 @@ theorem fr_next : Fr b l pre next next := by
   apply FrAt.bindW (fr_nextByte sc)
   intro c sc1
   apply FrAt.bindW
-  · refine FrAt.modS _ _ ⟨(lineCol_props (b := b) (l := l) (pre := pre) c sc1).1, Nat.le_of_eq (lineCol_meas c sc1), (lineCol_props c sc1).2.2.2⟩
+  · refine FrAt.modS _ _ ⟨(lineCol_props (b := b) (l := l) (pre := pre) c sc1).1, Nat.le_of_eq (lineCol_meas c sc1),
+      (lineCol_props c sc1).2.2.2.1, (lineCol_props (b := b) (l := l) (pre := pre) c sc1).2.2.2.2.1,
+      (lineCol_props (b := b) (l := l) (pre := pre) c sc1).2.2.2.2.2⟩
   · intro _ sc2; exact FrAt.pure _ _
 macro_rules | `(tactic| fr_lemma) => `(tactic| exact fr_next _)
 
@@ -437,17 +449,17 @@ theorem fr_peekMore : Fr b l pre peekMore peekMore := by
   unfold Strict at hs
   generalize readByte sc = p at h hs ⊢
   obtain ⟨r, sc1⟩ := p
-  obtain ⟨h1, h2⟩ := h
+  obtain ⟨h1, h2, h3, h4⟩ := h
   cases r with
   | error e =>
-    dsimp only at h1 h2 ⊢
-    refine ⟨h1, fun he => ?_⟩
+    dsimp only at h1 h2 h3 h4 ⊢
+    refine ⟨h1, fun he => ?_, h3, h4⟩
     obtain ⟨a1, a2⟩ := h2 he
     rw [a2]; exact ⟨a1, rfl⟩
   | ok c =>
-    dsimp only at h1 h2 hs ⊢
+    dsimp only at h1 h2 h3 h4 hs ⊢
     have := hs c rfl
-    refine ⟨by simp [meas] at this ⊢; omega, fun he => ?_⟩
+    refine ⟨by simp [meas] at this ⊢; omega, fun he => ?_, h3, h4⟩
     obtain ⟨a1, a2⟩ := h2 he
     rw [a2]; exact ⟨a1, rfl⟩
 macro_rules | `(tactic| fr_lemma) => `(tactic| exact fr_peekMore _)
@@ -1027,7 +1039,7 @@ theorem FrW.ite {α : Type} {c : Prop} [Decidable c] {f f' g g' : SM α} {sc : S
 theorem fr_addDsc (x : String × String) (sc : Scanner) :
     FrAt b l pre (Scan.modS (fun s => { s with dsc := s.dsc ++ [x] }))
       (Scan.modS (fun s => { s with dsc := s.dsc ++ [x] })) sc := by
-  refine FrAt.modS _ _ ⟨rfl, Nat.le_refl _, ?_⟩
+  refine FrAt.modS _ _ ⟨rfl, Nat.le_refl _, ?_, rfl, rfl⟩
   simp only [ext, List.append_assoc]
 macro_rules | `(tactic| fr_lemma) => `(tactic| exact fr_addDsc _ _)
 
@@ -1075,25 +1087,64 @@ theorem frw_scanToken (sc : Scanner) : FrW (b := b) (l := l) (pre := pre) scanTo
   apply FrAt.weak
   fr_auto
 
+theorem FrW.modS (f : Scanner → Scanner) (sc : Scanner)
+    (hf : (f sc).err = sc.err ∧ f (ext b l pre sc) = ext b l pre (f sc)) :
+    FrW (b := b) (l := l) (pre := pre) (Scan.modS f) (Scan.modS f) sc := by
+  intro r sc' e he _
+  cases e
+  refine ⟨?_, ?_⟩
+  · unfold Quiet at he ⊢
+    rw [← hf.1]; exact he
+  · show ((Except.ok (), f (ext b l pre sc)) : Except Err Unit × Scanner) = _
+    rw [hf.2]
+
+macro_rules | `(tactic| fr_lemma) => `(tactic| ((apply fr_skipEexecSpace) <;> with_reducible_and_instances fuel_side))
+macro_rules | `(tactic| fr_lemma) => `(tactic| exact fr_skipIV _ _)
+
+/-- the part of `BeginEexec` after the look-ahead -/
+theorem frw_beginTail (bb : List UInt8) (sc : Scanner) :
+    FrW (b := b) (l := l) (pre := pre)
+      (do
+        modS (fun s => { s with eexec := if (!bb.all isHexDigit) = true then 2 else 1, r := Cipher.eexecR, regurgitate := true })
+        skipIV 4
+        modS (fun s => { s with regurgitate := false }))
+      (do
+        modS (fun s => { s with eexec := if (!bb.all isHexDigit) = true then 2 else 1, r := Cipher.eexecR, regurgitate := true })
+        skipIV 4
+        modS (fun s => { s with regurgitate := false })) sc := by
+  refine FrW.bind (FrW.modS _ _ ⟨rfl, rfl⟩) ?_
+  intro _ sc1
+  refine FrW.bind (FrAt.weak (fr_skipIV 4 sc1)) ?_
+  intro _ sc2
+  exact FrW.modS _ _ ⟨rfl, rfl⟩
+
 theorem frw_beginEexec (sc : Scanner) : FrW (b := b) (l := l) (pre := pre) beginEexec beginEexec sc := by
   unfold beginEexec
   apply FrW.getS_bind
   dsimp only [ext_eexec]
   apply FrW.ite
-  · apply FrAt.weak; fr_auto
-    all_goals first
-      | exact fr_skipIV _ _
-      | (have h := ‹Scan.fail (Err.ps "invalidaccess") sc = _›; cases h)
+  · refine FrW.bind' (FrAt.weak (FrAt.fail _ _)) ?_
+    intro a sc1 h
+    cases h
   refine FrW.bind (FrAt.weak (fr_skipEexecSpace _ _ _ (meas_lt_fuelOf _) (fuelOf_le_ext _))) ?_
   intro u2 sc2
-  apply FrAt.weak
-  fr_auto
-  all_goals first
-    | exact fr_skipIV _ _
-    | skip
+  refine FrW.bind (FrAt.weak (fr_peekN 4 5 sc2)) ?_
+  intro bb sc3
+  apply FrW.ite
+  · apply FrW.getS_bind
+    dsimp only [ext_err]
+    split
+    · refine FrW.bind' (FrAt.weak (FrAt.fail _ _)) ?_
+      intro a sc4 h
+      cases h
+    · refine FrW.bind' (FrAt.weak (FrAt.fail _ _)) ?_
+      intro a sc4 h
+      cases h
+  · exact frw_beginTail bb sc3
 
 theorem frw_endEexec (sc : Scanner) : FrW (b := b) (l := l) (pre := pre) endEexec endEexec sc := by
-  apply FrAt.weak; unfold endEexec; fr_auto
+  unfold endEexec
+  exact FrW.modS _ _ ⟨rfl, rfl⟩
 
 end
 
@@ -1877,6 +1928,496 @@ theorem wsEnd_long (b : List UInt8) (l : Nat) (pre : List (String × String)) :
         · cases h
       · cases h
 
+/-! ### the white-space loop never runs out of fuel
+
+`skipWhiteSpace n` with `n` larger than the number of unread bytes does not end with the
+scanner model's out-of-fuel failure, outside eexec sections: every turn consumes a byte, and
+a turn fails only with the reader's error. -/
+
+/-- an action that never fails -/
+def NoFail {α : Type} (f : SM α) : Prop := ∀ sc, ∃ a, (f sc).1 = .ok a
+
+theorem NoFail.bind {α β : Type} {f : SM α} {k : α → SM β} (hf : NoFail f) (hk : ∀ a, NoFail (k a)) :
+    NoFail (f >>= k) := by
+  intro sc
+  rw [bind_eq]
+  obtain ⟨a, ha⟩ := hf sc
+  generalize f sc = p at ha
+  obtain ⟨r, sc1⟩ := p
+  dsimp only at ha
+  subst ha
+  exact hk a sc1
+
+theorem NoFail.pure {α : Type} (a : α) : NoFail (pure a : SM α) := fun _ => ⟨a, rfl⟩
+theorem NoFail.modS (f : Scanner → Scanner) : NoFail (Scan.modS f) := fun _ => ⟨(), rfl⟩
+theorem NoFail.getS : NoFail Scan.getS := fun sc => ⟨sc, rfl⟩
+theorem NoFail.attempt {α : Type} (f : SM α) : NoFail (Scan.attempt f) := by
+  intro sc
+  unfold Scan.attempt
+  generalize f sc = p
+  obtain ⟨r, sc1⟩ := p
+  exact ⟨r, rfl⟩
+theorem NoFail.ite {α : Type} {c : Prop} [Decidable c] {f g : SM α} (hf : NoFail f) (hg : NoFail g) :
+    NoFail (if c then f else g) := by
+  split
+  · exact hf
+  · exact hg
+
+syntax "nf_lemma" : tactic
+macro_rules | `(tactic| nf_lemma) => `(tactic| fail "no lemma applies")
+
+macro "nf_with" ih:ident : tactic =>
+  `(tactic| repeat' (first
+    | assumption
+    | contradiction
+    | with_reducible exact NoFail.pure _
+    | with_reducible exact NoFail.modS _
+    | with_reducible exact NoFail.getS
+    | with_reducible exact NoFail.attempt _
+    | with_reducible apply $ih
+    | with_reducible nf_lemma
+    | with_reducible apply NoFail.bind
+    | with_reducible apply NoFail.ite
+    | with_reducible intro _
+    | split
+    | dsimp only))
+
+macro "nf_auto" : tactic => `(tactic| (have trivialHyp : True := trivial; nf_with trivialHyp))
+
+theorem nf_skipByte : NoFail skipByte := by unfold skipByte; nf_auto
+macro_rules | `(tactic| nf_lemma) => `(tactic| exact nf_skipByte)
+
+theorem nf_skipN : ∀ n, NoFail (skipN n) := by
+  intro n
+  induction n with
+  | zero => unfold skipN; nf_auto
+  | succ k ih => unfold skipN; nf_with ih
+macro_rules | `(tactic| nf_lemma) => `(tactic| exact nf_skipN _)
+
+theorem nf_peekN (n : Nat) : ∀ f, NoFail (peekN n f) := by
+  intro f
+  induction f with
+  | zero => unfold peekN; nf_auto
+  | succ k ih => unfold peekN; nf_with ih
+macro_rules | `(tactic| nf_lemma) => `(tactic| exact nf_peekN _ _)
+
+theorem nf_lookingAt (pat : List UInt8) : NoFail (lookingAt pat) := by unfold lookingAt; nf_auto
+macro_rules | `(tactic| nf_lemma) => `(tactic| exact nf_lookingAt _)
+
+theorem nf_skipOptionalByte (x : UInt8) : NoFail (skipOptionalByte x) := by unfold skipOptionalByte; nf_auto
+macro_rules | `(tactic| nf_lemma) => `(tactic| exact nf_skipOptionalByte _)
+
+theorem nf_skipToEOL : ∀ n, NoFail (skipToEOL n) := by
+  intro n
+  induction n with
+  | zero => unfold skipToEOL; nf_auto
+  | succ k ih => unfold skipToEOL; nf_with ih
+macro_rules | `(tactic| nf_lemma) => `(tactic| exact nf_skipToEOL _)
+
+theorem nf_skipComment : NoFail skipComment := by unfold skipComment; nf_auto
+macro_rules | `(tactic| nf_lemma) => `(tactic| exact nf_skipComment)
+
+theorem nf_readStructuredComment : NoFail readStructuredComment := by unfold readStructuredComment; nf_auto
+macro_rules | `(tactic| nf_lemma) => `(tactic| exact nf_readStructuredComment)
+
+/-- plain mode: no eexec section, no replay, a sticky error the reader model produces -/
+structure Plain (sc : Scanner) : Prop where
+  eexec : sc.eexec = 0
+  reg : sc.regurgitate = false
+  std : ErrStd sc
+
+theorem FrAt.plain {α : Type} {f g : SM α} {sc : Scanner} (h : FrAt [] 0 [] f g sc) (hp : Plain sc) :
+    Plain (f sc).2 :=
+  ⟨h.keep.1.trans hp.eexec, h.keep.2.trans hp.reg, h.std hp.std⟩
+
+theorem Plain.of_eq {α : Type} {f g : SM α} {sc sc1 : Scanner} {r : Except Err α} (hp : Plain sc)
+    (h : FrAt [] 0 [] f g sc) (e : f sc = (r, sc1)) : Plain sc1 := by
+  have := h.plain hp; rw [e] at this; exact this
+
+theorem readByte_plain {sc : Scanner} (hp : Plain sc) : readByte sc = readByteRaw sc := by
+  unfold readByte
+  rw [getS_bind_eq]
+  simp [hp.eexec]
+
+/-- in plain mode the reader leaves the look-ahead alone and fails only with its own error -/
+theorem readByteRaw_plain {sc : Scanner} (hp : Plain sc) :
+    (readByteRaw sc).2.peek = sc.peek ∧
+    ∀ e, (readByteRaw sc).1 = .error e → e = .eof ∨ ∃ t, e = .io t := by
+  have hr := hp.reg
+  rcases hp.std with he | he | ⟨t, he⟩ <;>
+    cases hs : sc.src <;> cases hf : sc.fault <;> simp [readByteRaw, hr, he, hs, hf]
+
+theorem peek_err {sc sc1 : Scanner} {e : Err} (hp : Plain sc) (h : peek sc = (.error e, sc1)) :
+    e = .eof ∨ ∃ t, e = .io t := by
+  rw [peek_unfold, getS_bind_eq] at h
+  cases hpk : sc.peek with
+  | cons x rest => rw [hpk] at h; cases h
+  | nil =>
+    rw [hpk] at h
+    dsimp only at h
+    rw [peekMore_eq, readByte_plain hp] at h
+    have hraw := (readByteRaw_plain hp).2
+    generalize readByteRaw sc = p at h hraw
+    obtain ⟨r, s'⟩ := p
+    cases r with
+    | ok x => cases h
+    | error x =>
+      dsimp only at h hraw
+      cases h
+      exact hraw e rfl
+
+/-- in plain mode the look-ahead only grows -/
+theorem peekMore_peek {sc : Scanner} (hp : Plain sc) (hne : sc.peek ≠ []) : (peekMore sc).2.peek ≠ [] := by
+  rw [peekMore_eq, readByte_plain hp]
+  have hraw := (readByteRaw_plain hp).1
+  generalize readByteRaw sc = p at hraw
+  obtain ⟨r, s'⟩ := p
+  dsimp only at hraw
+  cases r with
+  | error x => dsimp only; rw [hraw]; exact hne
+  | ok x => dsimp only; simp
+
+theorem peekN_peek (n : Nat) : ∀ f sc, Plain sc → sc.peek ≠ [] → (peekN n f sc).2.peek ≠ [] := by
+  intro f
+  induction f with
+  | zero =>
+    intro sc _ hne
+    unfold peekN
+    rw [getS_bind_eq]
+    exact hne
+  | succ k ih =>
+    intro sc hp hne
+    rw [peekN_succ, getS_bind_eq]
+    split
+    · exact hne
+    · rw [bind_eq]
+      have h1 := peekMore_peek hp hne
+      have hp1 := (fr_peekMore (b := []) (l := 0) (pre := []) sc).plain hp
+      unfold Scan.attempt
+      generalize peekMore sc = p at h1 hp1
+      obtain ⟨r, s1⟩ := p
+      dsimp only at h1 hp1 ⊢
+      cases r with
+      | error x =>
+        dsimp only
+        rw [getS_bind_eq]
+        exact h1
+      | ok c => exact ih s1 hp1 h1
+
+theorem lookingAt_peek {pat : List UInt8} {sc : Scanner} (hp : Plain sc) (hne : sc.peek ≠ []) :
+    (lookingAt pat sc).2.peek ≠ [] := by
+  unfold lookingAt
+  rw [bind_eq]
+  have h := peekN_peek pat.length (pat.length + 1) sc hp hne
+  generalize peekN pat.length (pat.length + 1) sc = p at h
+  obtain ⟨r, s'⟩ := p
+  cases r with
+  | error x => exact h
+  | ok bb => exact h
+
+theorem peekN_take (n : Nat) : ∀ f sc bb, (peekN n f sc).1 = .ok bb → bb.length = n →
+    (peekN n f sc).2.peek.take n = bb ∧ n ≤ (peekN n f sc).2.peek.length := by
+  have base : ∀ (pk : List UInt8) bb, pk.take n = bb → bb.length = n → pk.take n = bb ∧ n ≤ pk.length := by
+    intro pk bb h hl
+    refine ⟨h, ?_⟩
+    rw [← h, List.length_take] at hl
+    omega
+  intro f
+  induction f with
+  | zero =>
+    intro sc bb h hl
+    unfold peekN at h ⊢
+    rw [getS_bind_eq] at h ⊢
+    simp only [pure_eq] at h ⊢
+    cases h
+    exact base _ _ rfl hl
+  | succ k ih =>
+    intro sc bb h hl
+    rw [peekN_succ] at h ⊢
+    rw [getS_bind_eq] at h ⊢
+    split at h
+    · rename_i hc
+      rw [if_pos hc]
+      simp only [pure_eq] at h ⊢
+      cases h
+      exact base _ _ rfl hl
+    · rename_i hc
+      rw [if_neg hc]
+      rw [bind_eq] at h ⊢
+      generalize Scan.attempt peekMore sc = p at h ⊢
+      obtain ⟨r, s1⟩ := p
+      cases r with
+      | error e => cases h
+      | ok r' =>
+        cases r' with
+        | error e =>
+          dsimp only at h ⊢
+          rw [getS_bind_eq] at h ⊢
+          simp only [pure_eq] at h ⊢
+          cases h
+          exact ⟨List.take_of_length_le (by omega), by omega⟩
+        | ok c => exact ih s1 bb h hl
+
+theorem lookingAt_true2 {pat : List UInt8} {sc sc1 : Scanner} (h : lookingAt pat sc = (.ok true, sc1)) :
+    sc1.peek.take pat.length = pat ∧ pat.length ≤ sc1.peek.length := by
+  unfold lookingAt at h
+  rw [bind_eq] at h
+  have hn := peekN_take pat.length (pat.length + 1) sc
+  generalize peekN pat.length (pat.length + 1) sc = p at h hn
+  obtain ⟨r, s'⟩ := p
+  cases r with
+  | error e => cases h
+  | ok bb =>
+    dsimp only at h hn
+    have h' : ((Except.ok (bb == pat), s') : Except Err Bool × Scanner) = (Except.ok true, sc1) := h
+    injection h' with h1 h2
+    injection h1 with h1
+    have : bb = pat := by simpa using h1
+    subst h2
+    subst this
+    exact hn bb rfl rfl
+
+theorem lookingAt_of_peek {pat : List UInt8} {sc : Scanner} (h : pat.length ≤ sc.peek.length) :
+    lookingAt pat sc = (.ok (sc.peek.take pat.length == pat), sc) := by
+  unfold lookingAt
+  rw [bind_eq]
+  have e : peekN pat.length (pat.length + 1) sc = (.ok (sc.peek.take pat.length), sc) := by
+    unfold peekN
+    rw [getS_bind_eq, if_pos h]
+    rfl
+  rw [e]
+  rfl
+
+/-- `readStructuredComment` after the two percent signs -/
+def rscRest : SM (Option (List UInt8 × List UInt8)) := do
+  let s ← getS
+  match ← attempt (readCommentKey (fuelOf s) []) with
+  | .error _ => do let s ← getS; skipToEOL (fuelOf s); pure none
+  | .ok key =>
+    if key.isEmpty then do let s ← getS; skipToEOL (fuelOf s); pure none
+    else do
+      let s ← getS
+      match ← attempt (readCommentValue (fuelOf s) []) with
+      | .error _ => pure none
+      | .ok val => pure (some (key, val))
+
+theorem rsc_eq : readStructuredComment = (do
+    if !(← lookingAt [37, 37]) then pure none
+    else do skipN 2; rscRest) := rfl
+
+theorem fr_rscRest (sc : Scanner) : FrAt [] 0 [] rscRest rscRest sc := by
+  unfold rscRest; fr_auto
+
+theorem lookingAt_again {pat : List UInt8} {sc : Scanner} (h1 : sc.peek.take pat.length = pat)
+    (h2 : pat.length ≤ sc.peek.length) : lookingAt pat sc = (.ok true, sc) := by
+  rw [lookingAt_of_peek h2, h1]
+  simp
+
+theorem rsc_strict {sc : Scanner} (h1 : sc.peek.take 2 = [37, 37]) (h2 : 2 ≤ sc.peek.length) :
+    meas (readStructuredComment sc).2 < meas sc := by
+  have hne : sc.peek ≠ [] := by intro h; rw [h] at h2; simp at h2
+  rw [rsc_eq, bind_eq, lookingAt_again (pat := [37, 37]) h1 h2]
+  simp only [Bool.not_true, Bool.false_eq_true, if_false]
+  rw [bind_eq]
+  have hs := @skipN_strict 1 sc
+  generalize skipN 2 sc = p at hs
+  obtain ⟨r, sc1⟩ := p
+  have h3 := hs hne rfl
+  cases r with
+  | error e => exact h3
+  | ok u =>
+    dsimp only
+    exact Nat.lt_of_le_of_lt (fr_rscRest sc1).meas h3
+
+theorem skipRequiredByte_strict {sc : Scanner} (x : UInt8) (hne : sc.peek ≠ []) :
+    meas (skipRequiredByte x sc).2 < meas sc := by
+  unfold skipRequiredByte
+  rw [bind_eq]
+  have hn := nextByte_peek hne
+  rw [← next_snd_meas] at hn
+  generalize next sc = p at hn
+  obtain ⟨r, s'⟩ := p
+  cases r with
+  | error e => exact hn
+  | ok c =>
+    dsimp only at hn ⊢
+    split <;> exact hn
+
+theorem attempt_bind_strict {α β : Type} {f : SM α} {k : Except Err α → SM β} {sc : Scanner}
+    (hf : meas (f sc).2 < meas sc) (hk : ∀ r sc1, meas (k r sc1).2 ≤ meas sc1) :
+    meas ((Scan.attempt f >>= k) sc).2 < meas sc := by
+  rw [bind_eq]
+  unfold Scan.attempt
+  generalize f sc = p at hf
+  obtain ⟨r, sc1⟩ := p
+  exact Nat.lt_of_le_of_lt (hk r sc1) hf
+
+theorem skipComment_strict {sc : Scanner} (hne : sc.peek ≠ []) : meas (skipComment sc).2 < meas sc := by
+  unfold skipComment
+  refine attempt_bind_strict (skipRequiredByte_strict 37 hne) ?_
+  intro r sc1
+  have h : FrAt [] 0 []
+      (match r with
+        | .ok _ => (do let s ← getS; skipToEOL (fuelOf s) : SM Unit)
+        | .error _ => pure ())
+      (match r with
+        | .ok _ => (do let s ← getS; skipToEOL (fuelOf s) : SM Unit)
+        | .error _ => pure ()) sc1 := by
+    fr_auto
+  exact h.meas
+
+/-- what a turn does after its first look-ahead -/
+def wsAfter (c : UInt8) : SM Bool :=
+  if c ≤ 32 then do skipByte; pure true
+  else if c == 37 then do
+    let s ← getS
+    if s.col == 0 && (← lookingAt [37, 37]) then do
+      match ← readStructuredComment with
+      | some (k, v) => modS (fun s => { s with dsc := s.dsc ++ [(bytesToString k, bytesToString v)] })
+      | none => pure ()
+      pure true
+    else do skipComment; pure true
+  else pure false
+
+theorem wsTurn_eq : wsTurn = (do let c ← peek; wsAfter c) := rfl
+
+theorem nf_wsAfter (c : UInt8) : NoFail (wsAfter c) := by unfold wsAfter; nf_auto
+
+theorem fr_wsAfter (c : UInt8) (sc : Scanner) : FrAt [] 0 [] (wsAfter c) (wsAfter c) sc := by
+  unfold wsAfter; fr_auto
+
+/-- a turn that goes on has consumed a byte -/
+theorem wsAfter_strict {c : UInt8} {sc : Scanner} (hp : Plain sc) (hne : sc.peek ≠ [])
+    (h : (wsAfter c sc).1 = .ok true) : meas (wsAfter c sc).2 < meas sc := by
+  unfold wsAfter at h ⊢
+  by_cases hc1 : c ≤ 32
+  · -- white space
+    rw [if_pos hc1] at h ⊢
+    rw [bind_eq]
+    have hs := @skipByte_strict sc
+    generalize skipByte sc = p at hs
+    obtain ⟨r, sc1⟩ := p
+    have := hs hne rfl
+    cases r with
+    | error e => exact this
+    | ok u => exact this
+  · rw [if_neg hc1] at h ⊢
+    by_cases hc2 : (c == 37) = true
+    · -- a comment
+      rw [if_pos hc2] at h ⊢
+      rw [getS_bind_eq, bind_eq] at h ⊢
+      have hl := @lookingAt_true2 [37, 37] sc
+      have hpk := lookingAt_peek (pat := [37, 37]) hp hne
+      have hle := (fr_lookingAt (b := []) (l := 0) (pre := []) [37, 37] sc).meas
+      generalize lookingAt [37, 37] sc = p at h hl hpk hle ⊢
+      obtain ⟨r, sc1⟩ := p
+      dsimp only at hpk hle
+      cases r with
+      | error e => cases h
+      | ok la =>
+        dsimp only at h ⊢
+        by_cases hc : (sc.col == 0 && la) = true
+        · rw [if_pos hc] at h ⊢
+          have hla : la = true := by
+            cases la
+            · simp at hc
+            · rfl
+          subst hla
+          obtain ⟨t1, t2⟩ := hl rfl
+          have hs := rsc_strict t1 t2
+          rw [bind_eq]
+          generalize readStructuredComment sc1 = q at hs
+          obtain ⟨r2, sc2⟩ := q
+          dsimp only at hs
+          cases r2 with
+          | error e => exact Nat.lt_of_lt_of_le hs hle
+          | ok x =>
+            dsimp only
+            have hm : meas ((match x with
+                | some (k, v) => do
+                  modS (fun s => { s with dsc := s.dsc ++ [(bytesToString k, bytesToString v)] })
+                  pure true
+                | none => (pure true : SM Bool)) sc2).2 ≤ meas sc2 := by
+              have hf : FrAt [] 0 [] (match x with
+                | some (k, v) => do
+                  modS (fun s => { s with dsc := s.dsc ++ [(bytesToString k, bytesToString v)] })
+                  pure true
+                | none => (pure true : SM Bool)) (match x with
+                | some (k, v) => do
+                  modS (fun s => { s with dsc := s.dsc ++ [(bytesToString k, bytesToString v)] })
+                  pure true
+                | none => (pure true : SM Bool)) sc2 := by fr_auto
+              exact hf.meas
+            exact Nat.lt_of_le_of_lt hm (Nat.lt_of_lt_of_le hs hle)
+        · rw [if_neg hc] at h ⊢
+          rw [bind_eq]
+          have hs := skipComment_strict hpk
+          generalize skipComment sc1 = q at hs
+          obtain ⟨r2, sc2⟩ := q
+          dsimp only at hs
+          cases r2 with
+          | error e => exact Nat.lt_of_lt_of_le hs hle
+          | ok x => exact Nat.lt_of_lt_of_le hs hle
+    · rw [if_neg hc2] at h
+      cases h
+
+theorem wsTurn_step {sc : Scanner} (hp : Plain sc) :
+    Plain (wsTurn sc).2 ∧ (∀ e, (wsTurn sc).1 = .error e → e ≠ scannerFuel) ∧
+    ((wsTurn sc).1 = .ok true → meas (wsTurn sc).2 < meas sc) := by
+  refine ⟨(fr_wsTurn [] 0 [] sc).plain hp, ?_, ?_⟩
+  · intro e
+    rw [wsTurn_eq, bind_eq]
+    have hpe := @peek_err sc
+    generalize peek sc = p at hpe
+    obtain ⟨r, sc1⟩ := p
+    cases r with
+    | error x =>
+      intro h
+      cases h
+      rcases hpe hp rfl with rfl | ⟨t, rfl⟩ <;> (intro hh; cases hh)
+    | ok c =>
+      dsimp only
+      obtain ⟨a, ha⟩ := nf_wsAfter c sc1
+      intro h
+      rw [ha] at h
+      cases h
+  · rw [wsTurn_eq, bind_eq]
+    have hne := @peek_nonempty sc
+    have hp1 := @Plain.of_eq _ peek peek sc
+    have hle := (fr_peek (b := []) (l := 0) (pre := []) sc).meas
+    generalize peek sc = p at hne hp1 hle
+    obtain ⟨r, sc1⟩ := p
+    cases r with
+    | error x => intro h; cases h
+    | ok c =>
+      dsimp only at hle ⊢
+      intro h
+      exact Nat.lt_of_lt_of_le (wsAfter_strict (hp1 hp (fr_peek sc) rfl) (hne rfl) h) hle
+
+/-- **the white-space loop does not run out of fuel** -/
+theorem ws_noSF : ∀ n sc, Plain sc → meas sc < n → (skipWhiteSpace n sc).1 ≠ .error scannerFuel := by
+  intro n
+  induction n with
+  | zero => intro sc _ h; omega
+  | succ n ih =>
+    intro sc hp hn
+    rw [skipWhiteSpace_succ, bind_eq]
+    obtain ⟨h1, h2, h3⟩ := wsTurn_step hp
+    generalize wsTurn sc = p at h1 h2 h3
+    obtain ⟨r, sc1⟩ := p
+    dsimp only at h1 h2 h3
+    cases r with
+    | error e =>
+      intro h
+      cases h
+      exact h2 _ rfl rfl
+    | ok c =>
+      cases c with
+      | false => intro h; cases h
+      | true =>
+        simp only [if_true]
+        exact ih sc1 h1 (by have := h3 rfl; omega)
+
 /-- the part of `scanToken` after the white space -/
 def scanTokenRest : SM Tok := do
   let b ← peek
@@ -1958,23 +2499,6 @@ theorem ws_agree {n1 n2 : Nat} {sc : Scanner} (h1 : (skipWhiteSpace n1 sc).1 ≠
   · exact (ws_mono n1 n2 sc h h1).symm
   · exact ws_mono n2 n1 sc (by omega) h2
 
-theorem scanTokenN_sf {n : Nat} {sc : Scanner} (h : (scanTokenN n sc).1 ≠ .error scannerFuel) :
-    (skipWhiteSpace n sc).1 ≠ .error scannerFuel := by
-  intro hc
-  apply h
-  unfold scanTokenN
-  rw [bind_eq]
-  generalize skipWhiteSpace n sc = p at hc
-  obtain ⟨r, sc1⟩ := p
-  dsimp only at hc
-  subst hc
-  rfl
-
-theorem scanTokenN_agree {n1 n2 : Nat} {sc : Scanner} (h1 : (scanTokenN n1 sc).1 ≠ .error scannerFuel)
-    (h2 : (scanTokenN n2 sc).1 ≠ .error scannerFuel) : scanTokenN n1 sc = scanTokenN n2 sc := by
-  unfold scanTokenN
-  rw [bind_eq, bind_eq, ws_agree (scanTokenN_sf h1) (scanTokenN_sf h2)]
-
 /-- a new scanner -/
 def fresh (b : List UInt8) : Scanner := { src := b, fault := none }
 
@@ -1999,19 +2523,25 @@ theorem scanTokenN_ext (n : Nat) (l : Nat) (pre : List (String × String)) (sc :
     fr_auto
   exact (h _ _ rfl (Or.inr rfl) (fun hb => absurd rfl hb)).2
 
+theorem plain_fresh_ext (b : List UInt8) (l : Nat) (pre : List (String × String)) :
+    Plain (ext [] l pre (fresh b)) ∧ meas (ext [] l pre (fresh b)) = b.length :=
+  ⟨⟨rfl, rfl, Or.inl rfl⟩, by simp [meas, fresh]⟩
+
 /-- the first token after the split: the rest of the long run continues like a new scanner
 over the second part, up to the line counter and the structured comments recorded so far -/
-theorem firstToken (b : List UInt8) {sc scX : Scanner} {k : Nat} (h : wsEnd (fuelOf sc + 4) sc = some (k, scX))
-    (h1 : (scanToken (ext b 0 [] sc)).1 ≠ .error scannerFuel)
-    (h2 : (scanToken (fresh b)).1 ≠ .error scannerFuel) :
+theorem firstToken (b : List UInt8) {sc scX : Scanner} {k : Nat} (h : wsEnd (fuelOf sc + 4) sc = some (k, scX)) :
     scanToken (ext b 0 [] sc) = ((scanToken (fresh b)).1, ext [] scX.line scX.dsc (scanToken (fresh b)).2) := by
-  have hA := (wsEnd_short _ _ _ _ h).1
-  rw [scanToken_long b 0 [] h, ext_atEnd b hA] at h1 ⊢
-  rw [scanToken_N (fresh b)] at h2 ⊢
+  obtain ⟨hA, _, hk, _⟩ := wsEnd_short _ _ _ _ h
+  rw [scanToken_long b 0 [] h, ext_atEnd b hA, scanToken_N (fresh b)]
   have e := scanTokenN_ext (fuelOf (fresh b) + 4) scX.line scX.dsc (fresh b)
-  have h2' : (scanTokenN (fuelOf (fresh b) + 4) (ext [] scX.line scX.dsc (fresh b))).1 ≠ .error scannerFuel := by
-    rw [e]; exact h2
-  rw [scanTokenN_agree h1 h2', e]
+  obtain ⟨hp, hm⟩ := plain_fresh_ext b scX.line scX.dsc
+  have n1 := ws_noSF (k + b.length) _ hp (by omega)
+  have n2 := ws_noSF (fuelOf (fresh b) + 4) _ hp (by rw [hm]; simp [fuelOf, fresh]; omega)
+  have ea : scanTokenN (k + b.length) (ext [] scX.line scX.dsc (fresh b)) =
+      scanTokenN (fuelOf (fresh b) + 4) (ext [] scX.line scX.dsc (fresh b)) := by
+    unfold scanTokenN
+    rw [bind_eq, bind_eq, ws_agree n1 n2]
+  rw [ea, e]
 
 /-! ### the token loop -/
 
@@ -2087,11 +2617,8 @@ theorem scanLoop_dsc (f m : Nat) (s : State) : (scanLoop f m s).1.dsc = s.dsc :=
 
 /-! ### a run that ends cleanly at a token boundary -/
 
-/-- the next `scanToken` finds the end of the input cleanly (`wsEnd`); the two other tests
-always succeed after at least one call of `Execute` has started and are only there to keep the
-proof short: `CheckStart` has been cleared and a scanner is installed -/
-def endOK (s : State) : Bool :=
-  (wsEnd (fuelOf s.scanner + 4) s.scanner).isSome && !s.checkStart && s.scannerDepth != 0
+/-- the next `scanToken` finds the end of the input cleanly (`wsEnd`) -/
+def endOK (s : State) : Bool := (wsEnd (fuelOf s.scanner + 4) s.scanner).isSome
 
 /-- the token loop of `executeScanner`, accepting only runs in which every token is scanned
 and executed with result `ok` and without the reader being asked for a byte beyond the end of
@@ -2256,6 +2783,364 @@ def finish (p : State × Res) : State × Res :=
 theorem execute_eq (f m : Nat) (s : State) (input : List UInt8) :
     execute f m s input none = finish (scanRun f m { s with scanner := fresh input }) := rfl
 
+/-! ### two control fields: `len(intp.scanners)` is restored, `CheckStart` is never set -/
+
+/-- `p` is an outcome of a call started in `s` -/
+def Keep (s : State) (p : State × Res) : Prop :=
+  p.1.scannerDepth = s.scannerDepth ∧ (s.checkStart = false → p.1.checkStart = false)
+
+theorem Keep.leaf {s : State} {p : State × Res} (h1 : p.1.scannerDepth = s.scannerDepth)
+    (h2 : p.1.checkStart = s.checkStart) : Keep s p := ⟨h1, fun h => by rw [h2]; exact h⟩
+
+theorem Keep.seq {s0 s s1 : State} {r1 : Res} {p : State × Res} (h : Keep s0 (s1, r1))
+    (hd : s0.scannerDepth = s.scannerDepth) (hc : s0.checkStart = s.checkStart) (h2 : Keep s1 p) : Keep s p :=
+  ⟨by rw [h2.1, h.1, hd], fun hs => h2.2 (h.2 (by rw [hc]; exact hs))⟩
+
+structure AllKeep (f m : Nat) : Prop where
+  one : ∀ s o x, Keep s (execOne f m s o x)
+  body : ∀ s o x, Keep s (execBody f m s o x)
+  tail : ∀ s o x c, Keep s (execTail f m s o x c)
+  run : ∀ s r o i n, Keep s (runBody f m s r o i n)
+  call : ∀ s id, Keep s (callBuiltin f m s id)
+  forL : ∀ s v i lm p, Keep s (forLoop f m s v i lm p)
+  rep : ∀ s n p, Keep s (repeatLoop f m s n p)
+  loop : ∀ s p, Keep s (loopLoop f m s p)
+  fArr : ∀ s r o i n p, Keep s (forallArr f m s r o i n p)
+  fStr : ∀ s r o i n p, Keep s (forallStr f m s r o i n p)
+  fDict : ∀ s d ks p, Keep s (forallDict f m s d ks p)
+  sRun : ∀ s, Keep s (scanRun f m s)
+  sLoop : ∀ s, Keep s (scanLoop f m s)
+
+theorem keep_execOne {f m : Nat} (ih : AllKeep f m) (s : State) (o : Obj) (x : Bool) :
+    Keep s (execOne (f + 1) m s o x) := by
+  unfold execOne
+  split
+  · split
+    · exact Keep.leaf rfl rfl
+    · have h1 := ih.body { s with execDepth := s.execDepth + 1, hiDepth := max s.hiDepth (s.execDepth + 1) } o true
+      generalize execBody f m _ o true = p1 at h1 ⊢
+      obtain ⟨s1, r1⟩ := p1
+      exact Keep.seq h1 rfl rfl (Keep.leaf rfl rfl)
+  · exact ih.body s o false
+
+theorem keep_execBody {f m : Nat} (ih : AllKeep f m) (s : State) (o : Obj) (x : Bool) :
+    Keep s (execBody (f + 1) m s o x) := by
+  unfold execBody
+  dsimp only
+  repeat' split
+  all_goals first
+    | exact Keep.leaf rfl rfl
+    | exact ih.tail s o x x
+
+theorem keep_leave {c : Bool} {s : State} {p : State × Res} (h : Keep s p) : Keep s (leaveLevel c p) := by
+  unfold leaveLevel
+  split
+  · exact h
+  · exact ⟨h.1, h.2⟩
+
+theorem keep_execTail {f m : Nat} (ih : AllKeep f m) (s : State) (o : Obj) (x c : Bool) :
+    Keep s (execTail (f + 1) m s o x c) := by
+  unfold execTail
+  conv => zeta
+  generalize hS : ({ s with numOps := s.numOps + 1 } : State) = S
+  have hd : S.scannerDepth = s.scannerDepth := by subst hS; rfl
+  have hcs : S.checkStart = s.checkStart := by subst hS; rfl
+  refine Keep.seq (s0 := S) (s1 := S) (r1 := .ok) (Keep.leaf rfl rfl) hd hcs ?_
+  split
+  · exact Keep.leaf rfl rfl
+  · split
+    · split
+      · exact Keep.leaf rfl rfl
+      · exact ih.tail S _ true c
+    · rename_i id
+      have h1 := ih.call S id
+      generalize callBuiltin f m S id = p1 at h1 ⊢
+      obtain ⟨s1, r1⟩ := p1
+      refine Keep.seq h1 rfl rfl ?_
+      dsimp only
+      split
+      · rename_i name
+        split
+        · split
+          · rename_i handler _
+            have h3 := ih.one { s1 with errors := name :: s1.errors, hiErrors := max s1.hiErrors (s1.errors.length + 1) } handler true
+            generalize execOne f m _ handler true = p3 at h3 ⊢
+            obtain ⟨s3, r3⟩ := p3
+            exact Keep.seq h3 rfl rfl (Keep.leaf rfl rfl)
+          · exact Keep.leaf rfl rfl
+        · exact Keep.leaf rfl rfl
+      · exact Keep.leaf rfl rfl
+    · rename_i ref off len
+      split
+      · split
+        · exact Keep.leaf rfl rfl
+        · split
+          · exact Keep.leaf rfl rfl
+          · apply keep_leave
+            have h1 := ih.run (enterLevel c S) ref off 0 (len - 1)
+            have e1 : (enterLevel c S).scannerDepth = S.scannerDepth := by cases c <;> rfl
+            have e2 : (enterLevel c S).checkStart = S.checkStart := by cases c <;> rfl
+            generalize runBody f m (enterLevel c S) ref off 0 (len - 1) = p1 at h1 ⊢
+            obtain ⟨s1, r1⟩ := p1
+            refine Keep.seq h1 e1 e2 ?_
+            dsimp only
+            split
+            · split
+              · exact ih.tail s1 _ false true
+              · exact Keep.leaf rfl rfl
+            · exact Keep.leaf rfl rfl
+      · exact Keep.leaf rfl rfl
+    · exact Keep.leaf rfl rfl
+
+theorem keep_runBody {f m : Nat} (ih : AllKeep f m) (s : State) (r o i t : Nat) :
+    Keep s (runBody (f + 1) m s r o i t) := by
+  cases t with
+  | zero => unfold runBody; exact Keep.leaf rfl rfl
+  | succ t =>
+    unfold runBody
+    split
+    · exact Keep.leaf rfl rfl
+    · rename_i tok _
+      have h1 := ih.one s tok false
+      generalize execOne f m s tok false = p1 at h1 ⊢
+      obtain ⟨s1, r1⟩ := p1
+      refine Keep.seq h1 rfl rfl ?_
+      dsimp only
+      split
+      · exact ih.run s1 r o (i + 1) t
+      · exact Keep.leaf rfl rfl
+
+theorem keep_loop {s0 s : State} {p : State × Res} {next : State → State × Res}
+    (h1 : Keep s0 p) (hd : s0.scannerDepth = s.scannerDepth) (hc : s0.checkStart = s.checkStart)
+    (hn : ∀ s1, Keep s1 (next s1)) : Keep s (InterpFuel.loopResult p next) := by
+  obtain ⟨s1, r1⟩ := p
+  refine Keep.seq h1 hd hc ?_
+  unfold InterpFuel.loopResult
+  dsimp only
+  split
+  · exact Keep.leaf rfl rfl
+  · exact hn s1
+  · exact Keep.leaf rfl rfl
+
+theorem keep_forLoop {f m : Nat} (ih : AllKeep f m) (s : State) (v i lm : Int) (p : Obj) :
+    Keep s (forLoop (f + 1) m s v i lm p) := by
+  unfold forLoop
+  split
+  · exact Keep.leaf rfl rfl
+  · exact keep_loop (next := fun s1 => if i > 0 ∧ v > maxInt64 - i ∨ i < 0 ∧ v < minInt64 - i then okS s1
+        else forLoop f m s1 (wrap64 (v + i)) i lm p)
+      (ih.one (pushS s (.int v)) p true) rfl rfl
+      (fun s1 => by
+        split
+        · exact Keep.leaf rfl rfl
+        · exact ih.forL s1 _ i lm p)
+
+theorem keep_repeatLoop {f m : Nat} (ih : AllKeep f m) (s : State) (k : Nat) (p : Obj) :
+    Keep s (repeatLoop (f + 1) m s k p) := by
+  cases k with
+  | zero => unfold repeatLoop; exact Keep.leaf rfl rfl
+  | succ k =>
+    unfold repeatLoop
+    exact keep_loop (next := fun s1 => repeatLoop f m s1 k p) (ih.one s p true) rfl rfl (fun s1 => ih.rep s1 k p)
+
+theorem keep_loopLoop {f m : Nat} (ih : AllKeep f m) (s : State) (p : Obj) :
+    Keep s (loopLoop (f + 1) m s p) := by
+  unfold loopLoop
+  exact keep_loop (next := fun s1 => loopLoop f m s1 p) (ih.one s p true) rfl rfl (fun s1 => ih.loop s1 p)
+
+theorem keep_forallArr {f m : Nat} (ih : AllKeep f m) (s : State) (r o i t : Nat) (p : Obj) :
+    Keep s (forallArr (f + 1) m s r o i t p) := by
+  cases t with
+  | zero => unfold forallArr; exact Keep.leaf rfl rfl
+  | succ t =>
+    unfold forallArr
+    split
+    · exact Keep.leaf rfl rfl
+    · rename_i v _
+      exact keep_loop (next := fun s1 => forallArr f m s1 r o (i + 1) t p) (ih.one (pushS s v) p true) rfl rfl
+        (fun s1 => ih.fArr s1 r o (i + 1) t p)
+
+theorem keep_forallStr {f m : Nat} (ih : AllKeep f m) (s : State) (r o i t : Nat) (p : Obj) :
+    Keep s (forallStr (f + 1) m s r o i t p) := by
+  cases t with
+  | zero => unfold forallStr; exact Keep.leaf rfl rfl
+  | succ t =>
+    unfold forallStr
+    split
+    · exact Keep.leaf rfl rfl
+    · rename_i c _
+      exact keep_loop (next := fun s1 => forallStr f m s1 r o (i + 1) t p)
+        (ih.one (pushS s (.int c.toNat)) p true) rfl rfl (fun s1 => ih.fStr s1 r o (i + 1) t p)
+
+theorem keep_forallDict {f m : Nat} (ih : AllKeep f m) (s : State) (d : Nat) (ks : List Name) (p : Obj) :
+    Keep s (forallDict (f + 1) m s d ks p) := by
+  cases ks with
+  | nil => unfold forallDict; exact Keep.leaf rfl rfl
+  | cons k ks =>
+    unfold forallDict
+    split
+    · exact ih.fDict s d ks p
+    · rename_i v _
+      exact keep_loop (next := fun s1 => forallDict f m s1 d ks p)
+        (ih.one (setStack s (v :: .name k :: s.vm.stack)) p true) rfl rfl (fun s1 => ih.fDict s1 d ks p)
+
+theorem keep_scanLoop {f m : Nat} (ih : AllKeep f m) (s : State) : Keep s (scanLoop (f + 1) m s) := by
+  rw [scanLoop_succ]
+  have d0 : (withScanner s Scan.scanToken).1.scannerDepth = s.scannerDepth := rfl
+  have c0 : (withScanner s Scan.scanToken).1.checkStart = s.checkStart := rfl
+  generalize withScanner s Scan.scanToken = p0 at d0 c0 ⊢
+  obtain ⟨s1, r0⟩ := p0
+  dsimp only at d0 c0
+  unfold loopBody
+  dsimp only
+  split
+  · exact Keep.leaf d0 c0
+  · exact Keep.leaf d0 c0
+  · rename_i tok
+    have e1 : (objOfTok s1 tok).1.scannerDepth = s1.scannerDepth := by cases tok <;> rfl
+    have e2 : (objOfTok s1 tok).1.checkStart = s1.checkStart := by cases tok <;> rfl
+    generalize objOfTok s1 tok = p2 at e1 e2 ⊢
+    obtain ⟨s2, o⟩ := p2
+    dsimp only at e1 e2 ⊢
+    have h3 := ih.one s2 o false
+    generalize execOne f m s2 o false = p3 at h3 ⊢
+    obtain ⟨s3, r3⟩ := p3
+    refine Keep.seq h3 (e1.trans d0) (e2.trans c0) ?_
+    dsimp only
+    split
+    · exact ih.sLoop s3
+    · exact Keep.leaf rfl rfl
+
+theorem startOf_keep (s : State) :
+    (startOf s).1.scannerDepth = s.scannerDepth ∧ (s.checkStart = false → (startOf s).1.checkStart = false) := by
+  unfold startOf
+  split
+  · rename_i h
+    refine ⟨?_, fun h' => by rw [h'] at h; cases h⟩
+    unfold withScanner
+    dsimp only
+    repeat' split
+    all_goals rfl
+  · exact ⟨rfl, id⟩
+
+theorem startOf_none_cs {s s1 : State} (h : startOf s = (s1, none)) : s1.checkStart = false := by
+  unfold startOf at h
+  split at h
+  · unfold withScanner at h
+    dsimp only at h
+    repeat' split at h
+    all_goals first
+      | (cases h; rfl)
+      | cases h
+  · rename_i hc
+    cases h
+    simpa using hc
+
+theorem keep_scanRun {f m : Nat} (ih : AllKeep f m) (s : State) : Keep s (scanRun (f + 1) m s) := by
+  rw [scanRun_succ]
+  have hs := startOf_keep s
+  generalize startOf s = st at hs ⊢
+  obtain ⟨s1, eo⟩ := st
+  dsimp only at hs ⊢
+  cases eo with
+  | some e => exact ⟨hs.1, hs.2⟩
+  | none =>
+    dsimp only
+    have h2 := ih.sLoop { s1 with scannerDepth := s1.scannerDepth + 1 }
+    generalize scanLoop f m _ = p2 at h2 ⊢
+    obtain ⟨s2, r2⟩ := p2
+    unfold wrapR
+    refine ⟨?_, fun h => h2.2 (hs.2 h)⟩
+    have := h2.1
+    dsimp only at this ⊢
+    rw [this, ← hs.1]
+    omega
+
+theorem keep_callBuiltin {f m : Nat} (ih : AllKeep f m) (s : State) (id : String) :
+    Keep s (callBuiltin (f + 1) m s id) := by
+  unfold callBuiltin
+  split
+  · repeat' split
+    all_goals first
+      | exact Keep.leaf rfl rfl
+      | exact Keep.seq (s0 := setStack s _) (r1 := .ok) (Keep.leaf rfl rfl) rfl rfl (ih.call _ _)
+      | exact Keep.seq (s0 := setStack s _) (r1 := .ok) (Keep.leaf rfl rfl) rfl rfl (ih.one _ _ _)
+  · repeat' split
+    all_goals first
+      | exact Keep.leaf rfl rfl
+      | exact Keep.seq (s0 := setStack s _) (r1 := .ok) (Keep.leaf rfl rfl) rfl rfl (ih.one _ _ _)
+  · repeat' split
+    all_goals first
+      | exact Keep.leaf rfl rfl
+      | exact Keep.seq (s0 := setStack s _) (r1 := .ok) (Keep.leaf rfl rfl) rfl rfl (ih.one _ _ _)
+  · repeat' split
+    all_goals first
+      | exact Keep.leaf rfl rfl
+      | exact Keep.seq (s0 := setStack s _) (r1 := .ok) (Keep.leaf rfl rfl) rfl rfl (ih.forL _ _ _ _ _)
+  · repeat' split
+    all_goals first
+      | exact Keep.leaf rfl rfl
+      | exact Keep.seq (s0 := setStack s _) (r1 := .ok) (Keep.leaf rfl rfl) rfl rfl (ih.rep _ _ _)
+  · repeat' split
+    all_goals first
+      | exact Keep.leaf rfl rfl
+      | exact Keep.seq (s0 := setStack s _) (r1 := .ok) (Keep.leaf rfl rfl) rfl rfl (ih.loop _ _)
+  · repeat' split
+    all_goals first
+      | exact Keep.leaf rfl rfl
+      | exact Keep.seq (s0 := setStack s _) (r1 := .ok) (Keep.leaf rfl rfl) rfl rfl (ih.fArr _ _ _ _ _ _)
+      | exact Keep.seq (s0 := setStack s _) (r1 := .ok) (Keep.leaf rfl rfl) rfl rfl (ih.fStr _ _ _ _ _ _)
+      | exact Keep.seq (s0 := setStack s _) (r1 := .ok) (Keep.leaf rfl rfl) rfl rfl (ih.fDict _ _ _ _)
+  · exact Keep.leaf rfl rfl
+  · unfold defaultErrorHandler
+    split <;> exact Keep.leaf rfl rfl
+  · split
+    · exact Keep.leaf rfl rfl
+    · rename_i rest _
+      dsimp only
+      split
+      · exact Keep.leaf rfl rfl
+      · generalize hp2 : withScanner ({ s with vm := pushDict { s.vm with stack := rest } s.vm.roots.systemDict } : State)
+          Scan.beginEexec = p2
+        have d2 : p2.1.scannerDepth = s.scannerDepth := by rw [← hp2]; rfl
+        have c2 : p2.1.checkStart = s.checkStart := by rw [← hp2]; rfl
+        obtain ⟨s2, r2⟩ := p2
+        dsimp only at d2 c2 ⊢
+        split
+        · exact Keep.leaf d2 c2
+        · have h3 := ih.sRun s2
+          generalize scanRun f m s2 = p3 at h3 ⊢
+          obtain ⟨s3, r3⟩ := p3
+          refine Keep.seq h3 d2 c2 ?_
+          dsimp only
+          repeat' split
+          all_goals exact Keep.leaf rfl rfl
+    · exact Keep.leaf rfl rfl
+  · repeat' split
+    all_goals exact Keep.leaf rfl rfl
+
+theorem allKeep (m : Nat) : ∀ f, AllKeep f m := by
+  intro f
+  induction f with
+  | zero =>
+    exact ⟨fun _ _ _ => by simp only [execOne]; exact Keep.leaf rfl rfl,
+      fun _ _ _ => by simp only [execBody]; exact Keep.leaf rfl rfl,
+      fun _ _ _ _ => by simp only [execTail]; exact Keep.leaf rfl rfl,
+      fun _ _ _ _ _ => by simp only [runBody]; exact Keep.leaf rfl rfl,
+      fun _ _ => by simp only [callBuiltin]; exact Keep.leaf rfl rfl,
+      fun _ _ _ _ _ => by simp only [forLoop]; exact Keep.leaf rfl rfl,
+      fun _ _ _ => by simp only [repeatLoop]; exact Keep.leaf rfl rfl,
+      fun _ _ => by simp only [loopLoop]; exact Keep.leaf rfl rfl,
+      fun _ _ _ _ _ _ => by simp only [forallArr]; exact Keep.leaf rfl rfl,
+      fun _ _ _ _ _ _ => by simp only [forallStr]; exact Keep.leaf rfl rfl,
+      fun _ _ _ _ => by simp only [forallDict]; exact Keep.leaf rfl rfl,
+      fun _ => by simp only [scanRun]; exact Keep.leaf rfl rfl,
+      fun _ => by simp only [scanLoop]; exact Keep.leaf rfl rfl⟩
+  | succ n ih =>
+    exact ⟨keep_execOne ih, keep_execBody ih, keep_execTail ih, keep_runBody ih, keep_callBuiltin ih,
+      keep_forLoop ih, keep_repeatLoop ih, keep_loopLoop ih, keep_forallArr ih, keep_forallStr ih,
+      keep_forallDict ih, keep_scanRun ih, keep_scanLoop ih⟩
+
 theorem startOf_long (b : List UInt8) (dd : List (String × String)) {s s1 : State}
     (h : startOf s = (s1, none)) (hq : s1.scanner.err = none) :
     startOf (extSt b 0 [] dd s) = (extSt b 0 [] dd s1, none) := by
@@ -2306,13 +3191,6 @@ theorem startOf_dsc (s : State) : (startOf s).1.dsc = s.dsc := by
     all_goals rfl
   · rfl
 
-theorem loopBody_sf (f m : Nat) (p : State × Except Err Tok) (h : p.2 = .error scannerFuel) :
-    (finish (wrapR (loopBody f m p))).2 = .err scannerFuel := by
-  obtain ⟨s1, r⟩ := p
-  dsimp only at h
-  subst h
-  rfl
-
 /-- outcome of the single call in terms of the outcome `q` of the token loop of the second
 call: the same interpreter, a scanner that differs in the line counter and the recorded
 structured comments, and -/
@@ -2344,21 +3222,19 @@ theorem finish_ok_dsc (q : State × Res) (hok : (finish (wrapR q)).2 = .ok) :
 def afterFirst (s sK : State) (scX : Scanner) : State :=
   { sK with scanner := eofOf scX, scannerDepth := sK.scannerDepth - 1, dsc := s.dsc ++ scX.dsc }
 
-theorem split_core {f m : Nat} {s sK : State} {a : List UInt8} {j : Nat}
+/-- the single call, seen from the second call: `P2` is the outcome of the second call -/
+def merged (d0 : List (String × String)) (scX : Scanner) (P2 : State × Res) : State × Res :=
+  ({ P2.1 with scanner := ext [] scX.line scX.dsc P2.1.scanner,
+               dsc := if P2.2 = .ok then P2.1.dsc else d0 }, P2.2)
+
+/-- the two runs with aligned fuel, without any further hypothesis -/
+theorem split_aligned {f m : Nat} {s sK : State} {a : List UInt8} {j : Nat}
     (hc : cleanRun f m s a = some (sK, j)) :
     ∃ k scX, wsEnd (fuelOf sK.scanner + 4) sK.scanner = some (k, scX) ∧
       execute f m s a none = (afterFirst s sK scX, .ok) ∧
-      ∀ (b : List UInt8) (F1 F2 : Nat),
-        (execute F1 m s (a ++ b) none).2 ≠ .fuel →
-        (execute F2 m (afterFirst s sK scX) b none).2 ≠ .fuel →
-        (execute F1 m s (a ++ b) none).2 ≠ .err scannerFuel →
-        (execute F2 m (afterFirst s sK scX) b none).2 ≠ .err scannerFuel →
-        execute F1 m s (a ++ b) none =
-          ({ (execute F2 m (afterFirst s sK scX) b none).1 with
-              scanner := ext [] scX.line scX.dsc (execute F2 m (afterFirst s sK scX) b none).1.scanner,
-              dsc := if (execute F2 m (afterFirst s sK scX) b none).2 = .ok
-                then (execute F2 m (afterFirst s sK scX) b none).1.dsc else s.dsc },
-           (execute F2 m (afterFirst s sK scX) b none).2) := by
+      ∀ (b : List UInt8) (F : Nat), f ≤ F →
+        execute (F + 1 + j + 1) m s (a ++ b) none =
+          merged s.dsc scX (execute (F + 1 + 1) m (afterFirst s sK scX) b none) := by
   cases f with
   | zero => simp [cleanRun] at hc
   | succ f =>
@@ -2371,9 +3247,16 @@ theorem split_core {f m : Nat} {s sK : State} {a : List UInt8} {j : Nat}
         have herr' : s1.scanner.err = none := by simpa using herr
         obtain ⟨hend, hj, hshort⟩ := cleanLoop_short _ _ _ _ _ hc
         unfold endOK at hend
-        simp only [Bool.and_eq_true, Bool.not_eq_true', bne_iff_ne, ne_eq] at hend
-        obtain ⟨⟨hw, hcs⟩, hdep⟩ := hend
-        obtain ⟨⟨k, scX⟩, hw⟩ := Option.isSome_iff_exists.mp hw
+        obtain ⟨⟨k, scX⟩, hw⟩ := Option.isSome_iff_exists.mp hend
+        -- `CheckStart` has been cleared and a scanner is installed
+        have hk := (allKeep m f).sLoop { s1 with scannerDepth := s1.scannerDepth + 1 }
+        rw [hshort k scX hw] at hk
+        have hcs1 : s1.checkStart = false := startOf_none_cs hst
+        have hcs : sK.checkStart = false := hk.2 hcs1
+        have hdep : ¬ sK.scannerDepth = 0 := by
+          have := hk.1
+          dsimp only at this
+          omega
         have hdsc : sK.dsc = s.dsc := by
           have e := scanLoop_dsc f m { s1 with scannerDepth := s1.scannerDepth + 1 }
           rw [hshort k scX hw] at e
@@ -2387,16 +3270,7 @@ theorem split_core {f m : Nat} {s sK : State} {a : List UInt8} {j : Nat}
           unfold wrapR finish afterFirst eofOf
           dsimp only
           rw [hdsc]
-        · intro b F1 F2 hf1 hf2 hsf1 hsf2
-          -- enough fuel for both runs
-          have e1 := InterpFuel.execute_fuel_mono (f := F1) (f' := (F1 + F2 + f) + 1 + j + 1) (by omega) m s (a ++ b) none hf1
-          have e2 := InterpFuel.execute_fuel_mono (f := F2) (f' := (F1 + F2 + f) + 1 + 1) (by omega) m
-            (afterFirst s sK scX) b none hf2
-          rw [← e1] at hsf1 ⊢
-          rw [← e2] at hsf2 ⊢
-          have hF : f ≤ F1 + F2 + f := by omega
-          generalize F1 + F2 + f = F at hsf1 hsf2 hF ⊢
-          clear e1 e2 hf1 hf2
+        · intro b F hF
           -- the long run arrives at the last token boundary of the first part
           have eab : execute (F + 1 + j + 1) m s (a ++ b) none =
               finish (wrapR (loopBody F m (withScanner (extSt b 0 [] s.dsc sK) Scan.scanToken))) := by
@@ -2424,17 +3298,10 @@ theorem split_core {f m : Nat} {s sK : State} {a : List UInt8} {j : Nat}
             dsimp only
             rw [scanLoop_succ]
             rfl
-          rw [eab] at hsf1 ⊢
-          rw [eb] at hsf2 ⊢
+          rw [eab, eb]
           clear eab eb
           -- the first token of the second part
-          have h1 : (Scan.scanToken (ext b 0 [] sK.scanner)).1 ≠ .error scannerFuel := by
-            intro hx
-            exact hsf1 (loopBody_sf F m _ hx)
-          have h2 : (Scan.scanToken (fresh b)).1 ≠ .error scannerFuel := by
-            intro hx
-            exact hsf2 (loopBody_sf F m _ hx)
-          have ft := firstToken b hw h1 h2
+          have ft := firstToken b hw
           have hd : sK.scannerDepth - 1 + 1 = sK.scannerDepth := by omega
           have ewU : withScanner (extSt b 0 [] s.dsc sK) Scan.scanToken =
               (extSt [] scX.line scX.dsc s.dsc
@@ -2466,20 +3333,49 @@ theorem split_core {f m : Nat} {s sK : State} {a : List UInt8} {j : Nat}
             (Or.inr rfl) (fun hb => absurd rfl hb)
           rw [hb.2, finish_ext]
           generalize loopBody F m (T1, rT) = q at hqd ⊢
+          unfold merged
           by_cases hok : (finish (wrapR q)).2 = .ok
-          · rw [if_pos hok, if_pos hok]
-            rw [finish_ok_dsc q hok, hqd, List.append_assoc]
+          · rw [if_pos hok, if_pos hok, finish_ok_dsc q hok, hqd, List.append_assoc]
           · rw [if_neg hok, if_neg hok]
       · cases hc
     · cases hc
 
 /-! ### the statement for two parts, and for any number of parts -/
 
-/-- the run was not cut short by the model: neither the fuel of the interpreter model nor the
-fuel of the scanner model ran out -/
-def Good (r : Res) : Prop := r ≠ .fuel ∧ r ≠ .err scannerFuel
+/-- the run was not cut short by the model -/
+def Good (r : Res) : Prop := r ≠ .fuel
 
 instance (r : Res) : Decidable (Good r) := by unfold Good; infer_instance
+
+theorem merged_good {d0 : List (String × String)} {scX : Scanner} {P : State × Res} (h : Good P.2) :
+    Good (merged d0 scX P).2 := h
+
+/-- if the single call is not cut short by the model then neither is the second call (with
+enough fuel) -/
+theorem split_second_good {f m : Nat} {s sK : State} {a : List UInt8} {j : Nat}
+    (hc : cleanRun f m s a = some (sK, j)) (b : List UInt8) (F1 : Nat)
+    (g1 : Good (execute F1 m s (a ++ b) none).2) :
+    Good (execute (F1 + f + 1 + 1) m (execute f m s a none).1 b none).2 := by
+  obtain ⟨k, scX, hw, ha, hb⟩ := split_aligned hc
+  rw [ha]
+  have hj : j < f := by
+    cases f with
+    | zero => simp [cleanRun] at hc
+    | succ f =>
+      unfold cleanRun at hc
+      dsimp only at hc
+      split at hc
+      · split at hc
+        · have := (cleanLoop_short _ _ _ _ _ hc).2.1; omega
+        · cases hc
+      · cases hc
+  have e := hb b (F1 + f) (by omega)
+  have e1 := InterpFuel.execute_fuel_mono (f := F1) (f' := (F1 + f) + 1 + j + 1) (by omega) m s (a ++ b) none g1
+  rw [e1] at e
+  intro hfuel
+  apply g1
+  rw [e]
+  exact hfuel
 
 /-- the outcome `P1` of the single call against the outcome `P2` of the last of several calls:
 same result; same interpreter state except that the scanner's line counter and list of
@@ -2523,11 +3419,23 @@ theorem split_two {f m : Nat} {s : State} {a : List UInt8} (hc : (cleanRun f m s
               then (execute F2 m (execute f m s a none).1 b none).1.dsc else s.dsc },
          (execute F2 m (execute f m s a none).1 b none).2) := by
   obtain ⟨⟨sK, j⟩, hc⟩ := Option.isSome_iff_exists.mp hc
-  obtain ⟨k, scX, hw, ha, hb⟩ := split_core hc
+  obtain ⟨k, scX, hw, ha, hb⟩ := split_aligned hc
   rw [ha]
   refine ⟨rfl, rfl, ?_⟩
   intro b F1 F2 g1 g2
-  exact hb b F1 F2 g1.1 g2.1 g1.2 g2.2
+  have e := hb b (F1 + F2 + f) (by omega)
+  have e1 := InterpFuel.execute_fuel_mono (f := F1) (f' := (F1 + F2 + f) + 1 + j + 1) (by omega) m s (a ++ b) none g1
+  have e2 := InterpFuel.execute_fuel_mono (f := F2) (f' := (F1 + F2 + f) + 1 + 1) (by omega) m
+    (afterFirst s sK scX) b none g2
+  rw [e1, e2] at e
+  exact e
+
+/-- … and the second call terminates in the model when the single call does -/
+theorem split_two_good {f m : Nat} {s : State} {a : List UInt8} (hc : (cleanRun f m s a).isSome = true)
+    (b : List UInt8) (F1 : Nat) (g1 : Good (execute F1 m s (a ++ b) none).2) :
+    Good (execute (F1 + f + 1 + 1) m (execute f m s a none).1 b none).2 := by
+  obtain ⟨⟨sK, j⟩, hc⟩ := Option.isSome_iff_exists.mp hc
+  exact split_second_good hc b F1 g1
 
 theorem execute_dsc_err (F m : Nat) (s : State) (b : List UInt8)
     (h : (execute F m s b none).2 ≠ .ok) : (execute F m s b none).1.dsc = s.dsc := by
@@ -2546,17 +3454,13 @@ def endState (f m : Nat) : State → List (List UInt8) → State
   | s, [] => s
   | s, a :: rest => endState f m (execute f m s a none).1 rest
 
-/-- every part ends cleanly at a token boundary when it is run after the parts before it,
-and the run over the rest of the input is not cut short by the model -/
-def ChainOK (f m : Nat) : State → List (List UInt8) → List UInt8 → Prop
-  | _, [], _ => True
-  | s, a :: rest, b =>
-    (cleanRun f m s a).isSome = true ∧
-    (∃ F, Good (execute F m (execute f m s a none).1 (rest.flatten ++ b) none).2) ∧
-    ChainOK f m (execute f m s a none).1 rest b
+/-- every part ends cleanly at a token boundary when it is run after the parts before it -/
+def ChainOK (f m : Nat) : State → List (List UInt8) → Prop
+  | _, [] => True
+  | s, a :: rest => (cleanRun f m s a).isSome = true ∧ ChainOK f m (execute f m s a none).1 rest
 
 theorem split_many (f m : Nat) : ∀ (parts : List (List UInt8)) (s : State) (b : List UInt8),
-    ChainOK f m s parts b → ∀ F1 F2,
+    ChainOK f m s parts → ∀ F1 F2,
       Good (execute F1 m s (parts.flatten ++ b) none).2 →
       Good (execute F2 m (endState f m s parts) b none).2 →
       SplitRel s.dsc (execute F1 m s (parts.flatten ++ b) none) (execute F2 m (endState f m s parts) b none) := by
@@ -2566,8 +3470,8 @@ theorem split_many (f m : Nat) : ∀ (parts : List (List UInt8)) (s : State) (b 
     intro s b _ F1 F2 g1 g2
     simp only [List.flatten_nil, List.nil_append] at g1 ⊢
     unfold endState at g2 ⊢
-    have e1 := InterpFuel.execute_fuel_mono (f := F1) (f' := F1 + F2) (by omega) m s b none g1.1
-    have e2 := InterpFuel.execute_fuel_mono (f := F2) (f' := F1 + F2) (by omega) m s b none g2.1
+    have e1 := InterpFuel.execute_fuel_mono (f := F1) (f' := F1 + F2) (by omega) m s b none g1
+    have e2 := InterpFuel.execute_fuel_mono (f := F2) (f' := F1 + F2) (by omega) m s b none g2
     rw [← e1, e2]
     refine ⟨0, [], ?_⟩
     rw [ext_nil]
@@ -2576,20 +3480,40 @@ theorem split_many (f m : Nat) : ∀ (parts : List (List UInt8)) (s : State) (b 
     · rw [if_neg hok, ← execute_dsc_err F2 m s b hok]
   | cons a rest ih =>
     intro s b hch F1 F2 g1 g2
-    obtain ⟨hc, ⟨F, gF⟩, hrest⟩ := hch
+    obtain ⟨hc, hrest⟩ := hch
     have e : (a :: rest).flatten ++ b = a ++ (rest.flatten ++ b) := by simp
     rw [e] at g1 ⊢
     unfold endState at g2 ⊢
     obtain ⟨_, _, h2⟩ := split_two hc
+    have gF := split_two_good hc (rest.flatten ++ b) F1 g1
     have r1 : SplitRel s.dsc (execute F1 m s (a ++ (rest.flatten ++ b)) none)
-        (execute F m (execute f m s a none).1 (rest.flatten ++ b) none) :=
-      ⟨_, _, h2 (rest.flatten ++ b) F1 F g1 gF⟩
-    exact r1.trans (ih (execute f m s a none).1 b hrest F F2 gF g2)
+        (execute (F1 + f + 1 + 1) m (execute f m s a none).1 (rest.flatten ++ b) none) :=
+      ⟨_, _, h2 (rest.flatten ++ b) F1 _ g1 gF⟩
+    exact r1.trans (ih (execute f m s a none).1 b hrest _ F2 gF g2)
+
+/-- … and the last call terminates in the model when the single call does -/
+theorem split_many_good (f m : Nat) : ∀ (parts : List (List UInt8)) (s : State) (b : List UInt8),
+    ChainOK f m s parts → ∀ F1, Good (execute F1 m s (parts.flatten ++ b) none).2 →
+      ∃ F2, Good (execute F2 m (endState f m s parts) b none).2 := by
+  intro parts
+  induction parts with
+  | nil =>
+    intro s b _ F1 g1
+    simp only [List.flatten_nil, List.nil_append] at g1
+    exact ⟨F1, g1⟩
+  | cons a rest ih =>
+    intro s b hch F1 g1
+    obtain ⟨hc, hrest⟩ := hch
+    have e : (a :: rest).flatten ++ b = a ++ (rest.flatten ++ b) := by simp
+    rw [e] at g1
+    exact ih (execute f m s a none).1 b hrest _ (split_two_good hc (rest.flatten ++ b) F1 g1)
 
 end PsVerif.Proofs.SplitExec
 
 #print axioms PsVerif.Proofs.SplitExec.frw_scanToken
 #print axioms PsVerif.Proofs.SplitExec.allFr
-#print axioms PsVerif.Proofs.SplitExec.split_core
+#print axioms PsVerif.Proofs.SplitExec.ws_noSF
+#print axioms PsVerif.Proofs.SplitExec.split_aligned
 #print axioms PsVerif.Proofs.SplitExec.split_two
 #print axioms PsVerif.Proofs.SplitExec.split_many
+#print axioms PsVerif.Proofs.SplitExec.split_many_good
